@@ -4,7 +4,7 @@ package http3
 //vx:entry Harness_C18_body
 //vx:param all maxdepth=3000
 //vx:param quick frames=3 maxpayload=2
-//vx:param thorough frames=4 maxpayload=3
+//vx:param thorough frames=4 maxpayload=2
 //vx:reach Harness_C18_body C18.data C18.unknown-skipped C18.reserved-aborts C18.too-much-data C18.eof C18.exact-content-length C18.trailer
 
 import (
